@@ -435,7 +435,16 @@ impl<M: Monitor> DynMonitor for Erased<M> {
     }
     fn replay(&self, env: &Env, case: &Value) -> Result<CaseResult, String> {
         let case: M::Case = serde_json::from_value(case.clone()).map_err(|e| format!("cannot decode case: {e}"))?;
-        let checked = checked_catch(&self.0, env, &case);
+        let mut checked = checked_catch(&self.0, env, &case);
+        if checked.is_violated() {
+            // the same rule as for generated cases: a violation has to show again
+            let clause = checked.sig().map(|s| sig_class(s).to_string());
+            let reproduced = (0..2).any(|_| checked_catch(&self.0, env, &case).sig().map(sig_class) == clause.as_deref());
+            if !reproduced {
+                let sig = checked.sig().unwrap_or("?").to_string();
+                checked = Checked::inconclusive(format!("violation not reproducible, seen once in three runs of the same case: {sig}"));
+            }
+        }
         Ok(CaseResult {
             checked,
             sample: catch(|| self.0.sample(&case)).unwrap_or(Value::Null),
